@@ -76,6 +76,7 @@ pub fn gen(r: &mut Rng, thorough: bool) -> Vec<(String, String)> {
     v.extend(comp2::gen_nlcast(r, thorough));
     v.extend(lanes3::gen(r, thorough));
     v.extend(lanes2::gen(r, thorough));
+    v.extend(comp::gen_pairs(r, thorough));
     v
 }
 
@@ -222,19 +223,34 @@ pub mod comp {
                     if first { (&pc, &*gc, &px, &*gx) } else { (&px, &*gx, &pc, &*gc) };
                 let pos12 = p1.inv_mul(p2);
                 let pos_cx = if first { pos12 } else { pos12.inverse() };
+                // composite vs composite: the other shape is expanded into ITS parts as well, the brute force is the double
+                // reduction over all (part, other part) pairs; for a simple other shape there is one "part" with no pose
+                let xps: Vec<(Option<Isometry<Real>>, Box<dyn Shape>)> = match &x {
+                    Sh::Compound(qs) => qs.iter().map(|(m, s)| (Some(*m), c03::dynsh(s))).collect(),
+                    Sh::TriMesh(..) => gx.as_trimesh().unwrap().triangles().map(|t| (None, Box::new(t) as Box<dyn Shape>)).collect(),
+                    _ => vec![(None, c03::dynsh(&x))] };
+                // When the other shape is itself composite the real code, having reached part i of `c`, calls the query on
+                // (part i, X); the dispatcher sees a composite SECOND argument, swaps the roles and reaches the parts of X with the
+                // pair in the order (X-part j, part i).  The brute force calls the pair query in that same order and frame
+                // (an order-asymmetry of a pair query is a matter for C02/C03/C06, not a pruning fault).
+                let nested = matches!(x, Sh::Compound(_) | Sh::TriMesh(..));
+                // (pose of the second shape in the first one's frame, first, second, pose of part i, pose of X-part j, pose of X in part i's frame)
+                let pairs: Vec<(Isometry<Real>, &dyn Shape, &dyn Shape, Option<Isometry<Real>>, Option<Isometry<Real>>, Isometry<Real>)> = ps.iter().flat_map(|(pp, s)| {
+                    let m0 = pp.as_ref().inv_mul(&pos_cx);
+                    xps.iter().map(move |(q, sx)| if nested { (q.as_ref().inv_mul(&m0.inverse()), &**sx, &**s, *pp, *q, m0) } else { (m0, &**s, &**sx, *pp, *q, m0) }) }).collect();
                 match func {
                     "composite_distance" => {
                         let got = match query::distance(p1, g1, p2, g2) { Ok(v) => v, Err(_) => return "unsupported ; unsupported".into() };
-                        let bf = minf(ps.iter().filter_map(|(pp, s)| d.distance(&pp.as_ref().inv_mul(&pos_cx), &**s, &*gx).ok()));
+                        let bf = minf(pairs.iter().filter_map(|(m, s, sx, ..)| d.distance(m, *s, *sx).ok()));
                         format!("v {} ; {}", ff(got), fo(bf))
                     }
                     "composite_it" => {
                         let got = match query::intersection_test(p1, g1, p2, g2) { Ok(v) => v, Err(_) => return "unsupported ; unsupported".into() };
-                        let bf = ps.iter().any(|(pp, s)| d.intersection_test(&pp.as_ref().inv_mul(&pos_cx), &**s, &*gx).unwrap_or(false));
+                        let bf = pairs.iter().any(|(m, s, sx, ..)| d.intersection_test(m, *s, *sx).unwrap_or(false));
                         // qualifier: signed gap of the closest / deepest part (a verdict may legitimately differ only when the shapes merely touch)
-                        let tie = minf(ps.iter().filter_map(|(pp, s)| d.contact(&pp.as_ref().inv_mul(&pos_cx), &**s, &*gx, 1.0).ok().flatten().map(|c| c.dist)));
+                        let tie = minf(pairs.iter().filter_map(|(m, s, sx, ..)| d.contact(m, *s, *sx, 1.0).ok().flatten().map(|c| c.dist)));
                         // the per-part verdicts must agree among themselves (C02); if they do not, say so instead of blaming the reduction
-                        let dmin = minf(ps.iter().filter_map(|(pp, s)| d.distance(&pp.as_ref().inv_mul(&pos_cx), &**s, &*gx).ok()));
+                        let dmin = minf(pairs.iter().filter_map(|(m, s, sx, ..)| d.distance(m, *s, *sx).ok()));
                         if bf && !got && dmin.map(|x| x > 1.0e-9).unwrap_or(false) { return format!("{} ; X ; tie {}", b(got), fo(dmin)); }
                         format!("{} ; {} ; tie {}", b(got), b(bf), fo(tie))
                     }
@@ -244,10 +260,9 @@ pub mod comp {
                         // the entry point returns world-space points
                         let gk = fcp(&got, &Isometry::identity());
                         let mut best: (u8, f64) = (2, 0.0);
-                        for (pp, s) in &ps {
-                            let m = pp.as_ref().inv_mul(&pos_cx);
-                            if let Ok(r) = d.closest_points(&m, &**s, &*gx, margin) {
-                                let k = fcp(&r, &m);
+                        for (m, s, sx, ..) in &pairs {
+                            if let Ok(r) = d.closest_points(m, *s, *sx, margin) {
+                                let k = fcp(&r, m);
                                 if k.0 == 0 { best = (0, 0.0); break; }
                                 if k.0 == 1 && (best.0 == 2 || k.1 < best.1) { best = k; }
                             }
@@ -257,7 +272,7 @@ pub mod comp {
                     "composite_contact" => {
                         let pred = a.f();
                         let got = match query::contact(p1, g1, p2, g2, pred) { Ok(v) => v, Err(_) => return "unsupported ; unsupported".into() };
-                        let bf = minf(ps.iter().filter_map(|(pp, s)| d.contact(&pp.as_ref().inv_mul(&pos_cx), &**s, &*gx, pred).ok().flatten().map(|c| c.dist)));
+                        let bf = minf(pairs.iter().filter_map(|(m, s, sx, ..)| d.contact(m, *s, *sx, pred).ok().flatten().map(|c| c.dist)));
                         format!("{} ; {} ; lim {}", fo(got.map(|c| c.dist)), fo(bf), ff(pred))
                     }
                     _ => {
@@ -268,12 +283,18 @@ pub mod comp {
                         let got = match d.cast_shapes(&pos12, &vel12, g1, g2, opts) { Ok(v) => v, Err(_) => return "unsupported ; unsupported".into() };
                         let vel_cx = if first { vel12 } else { -pos12.inverse_transform_vector(&vel12) };
                         let mut pi = 0;
-                        let bf = minf(ps.iter().filter_map(|(pp, s)| {
-                            let r = match pp { Some(pp) => d.cast_shapes(&pp.inv_mul(&pos_cx), &pp.inverse_transform_vector(&vel_cx), &**s, &*gx, opts),
-                                               None => d.cast_shapes(&pos_cx, &vel_cx, &**s, &*gx, opts) };
+                        let bf = minf(pairs.iter().filter_map(|(m, s, sx, pp, q, m0)| {
+                            let v0 = match pp { Some(pp) => pp.inverse_transform_vector(&vel_cx), None => vel_cx };
+                            let v = if nested { let vin = -m0.inverse_transform_vector(&v0); match q { Some(q) => q.inverse_transform_vector(&vin), None => vin } } else { v0 };
+                            let r = d.cast_shapes(m, &v, *s, *sx, opts);
                             if std::env::var("VERIF_DBG").is_ok() { if let Ok(Some(h)) = &r { eprintln!("part {} {:?} toi {}", pi, s.as_triangle(), h.time_of_impact); } }
                             pi += 1;
                             r.ok().flatten().map(|h| h.time_of_impact) }));
+                        if std::env::var("VERIF_DBG").is_ok() { for (k, (pp, s)) in ps.iter().enumerate() {
+                            let m0 = pp.as_ref().inv_mul(&pos_cx); let v0 = match pp { Some(pp) => pp.inverse_transform_vector(&vel_cx), None => vel_cx };
+                            eprintln!("outer part {} vs X: {:?}", k, d.cast_shapes(&m0, &v0, &**s, &*gx, opts).map(|h| h.map(|h| (h.time_of_impact, h.status))));
+                            for (q, sx) in &xps { let m = match q { Some(q) => m0 * q, None => m0 };
+                                eprintln!("    pair: {:?} dist {:?}", d.cast_shapes(&m, &v0, &**s, &**sx, opts).map(|h| h.map(|h| (h.time_of_impact, h.status))), d.distance(&m, &**s, &**sx)); } } }
                         if std::env::var("VERIF_DBG").is_ok() { eprintln!("pos_cx {:?} vel_cx {:?} aabb_x {:?} aabb_c {:?}", pos_cx, vel_cx, gx.compute_aabb(&pos_cx), gc.compute_local_aabb()); }
                         format!("{} ; {} ; lim {}", fo(got.map(|h| h.time_of_impact)), fo(bf), ff(max_toi))
                     }
@@ -536,6 +557,52 @@ pub mod comp {
                 let mut dir = Vector::zeros(); dir[j] = *r.pick(&[0.5, 1.0, 2.0]);
                 if r.bool() { org = ctr; org[k] = if plus { pb.maxs[k] + 2.0 } else { pb.mins[k] - 2.0 }; dir = Vector::zeros(); dir[k] = if plus { -1.0 } else { 1.0 }; }
                 v.push(("composite_ray".into(), format!("{} {} {} {} {}", hc, d3::hp(&(world * org)), d3::hv(&(world * dir)), hx(*r.pick(&[2.0, 4.0, 1.0e3])), b(r.bool()))));
+            }
+        }
+        v
+    }
+
+    // ---------------------------------------------------------------- composite against composite
+    /// a small composite as the OTHER shape (2-6 parts / 12 triangles); `exact`: dyadic poses only
+    fn gen_other_composite(r: &mut Rng, lat: bool, exact: bool) -> Sh {
+        if r.below(4) == 0 {
+            use crate::p3::shape::Cuboid;
+            let (vs, is) = Cuboid::new(Vector::new(*r.pick(&[0.5, 1.0]), *r.pick(&[0.25, 0.5]), *r.pick(&[0.5, 2.0]))).to_trimesh();
+            Sh::TriMesh(0, vs, is)
+        } else {
+            let n = 2 + r.below(5) as usize;
+            Sh::Compound((0..n).map(|_| {
+                let t = if exact || lat { Vector::new(*r.pick(&[-1.0, 0.0, 0.5, 1.5]), *r.pick(&[-0.5, 0.0, 1.0]), *r.pick(&[-1.0, 0.0, 0.5])) } else { d3::gen_v(r, false, 1.5) };
+                let q = if exact { qexact(r) } else { d3::gen_quat(r, lat) };
+                let kind = r.below(4);
+                (Isometry::from_parts(na::Translation3::from(t), uq(q)), unit_parts(r, true, kind)) }).collect())
+        }
+    }
+    pub fn gen_pairs(r: &mut Rng, thorough: bool) -> Vec<(String, String)> {
+        let mut v = Vec::new();
+        let n = if thorough { 250 } else { 30 };
+        for it in 0..n {
+            let lat = it % 2 == 0; let exact = it % 4 == 0;
+            let c = if exact { gen_touch_composite(r) } else { match it % 3 { 0 => gen_compound(r, lat), 1 => gen_grid_mesh(r, lat), _ => gen_polyline(r, lat) } };
+            let world = if exact { exact_world(r) } else if r.below(3) == 0 { Isometry::identity() } else { d3::gen_iso(r, lat, 20.0) };
+            let hc = format!("{} {}", hco(&c), d3::hiso(&world));
+            let boxes = part_boxes(&c);
+            for _ in 0..2 {
+                let x = gen_other_composite(r, lat, exact);
+                let gap = *r.pick(&[0.0, 0.0, 0.25, 0.5]);
+                let rel = if exact { let pb = boxes[r.below(boxes.len() as u64) as usize]; let k = r.below(3) as usize; let plus = r.bool(); touch_pose(r, &pb, &x, gap, k, plus) } else { gen_rel_pose(r, lat, &c) };
+                let hx_ = format!("{} {}", c03::hsh(&x), d3::hiso(&(world * rel)));
+                for first in [true, false] {
+                    let base = format!("{} {} {}", hc, hx_, b(first));
+                    v.push(("composite_distance".into(), base.clone()));
+                    v.push(("composite_it".into(), base.clone()));
+                    let par = if exact { gap } else { c03::gen_param(r, lat) };
+                    v.push(("composite_cp".into(), format!("{} {}", base, hx(par))));
+                    v.push(("composite_contact".into(), format!("{} {}", base, hx(par))));
+                    let vel = if rel.translation.vector.norm() > 1e-3 && r.bool() { -rel.translation.vector.normalize() * r.pos_extent(true) } else { d3::gen_v(r, true, 3.0) };
+                    let vel = if first { vel } else { -(rel.inverse_transform_vector(&vel)) };
+                    v.push(("composite_cast".into(), format!("{} {} {} {} {}", base, d3::hv(&vel), hx(*r.pick(&[2.0, 1.0e3])), hx(0.0), b(r.bool()))));
+                }
             }
         }
         v
